@@ -195,6 +195,9 @@ func main() {
 			h.Name = fmt.Sprintf("gen-restart-%d", i)
 			r.Count("histories.restart_compact_share", 1)
 		}
+		if h.DiscardWriteLogs {
+			r.Count("histories.discard_write_logs_share", 1)
+		}
 		sb, bb := runHistory(r, h.Name, ndblab.Badger, h, onDisk, !h.BadgerOnly)
 		if h.BadgerOnly {
 			r.Count("histories.badger-only-shapes", 1)
